@@ -5,7 +5,10 @@
 // repository is zero). It is never compiled into go-geom.
 package fixture
 
-import "errors"
+import (
+	"errors"
+	"slices"
+)
 
 var errFixture = errors.New("fixture")
 
@@ -347,3 +350,9 @@ func badIndexOffByOne(b byte) int {
 	}
 	return orderTable[b]
 }
+
+// ---- whole-slice comparison of coordinates (planar code must look at ordinates 0 and 1 only)
+
+func goodVertexEqualXY(p, v []float64) bool { return p[0] == v[0] && p[1] == v[1] }
+
+func badVertexEqualWhole(p, v []float64) bool { return slices.Equal(p, v) }
